@@ -65,7 +65,7 @@ def run_check(prop, tier, seed, replay=None):
 
     # 1. static development (models, specs, parametric theorems)
     banned_tokens_gate()
-    core.ensure_static_built()
+    built_ok, build_log = core.ensure_static_built()
     pfile = COQ / "Properties" / f"{pid}.v"
     static_thms = []
     if pfile.exists():
@@ -118,11 +118,12 @@ def run_check(prop, tier, seed, replay=None):
     if replay is not None:
         return do_replay(prop, targets, obs, replay, bdir, hdr)
     queries = []
-    for o in obs:
+    robs = [o for o in obs if o.kind.startswith("R-")]
+    for o in robs:
         queries += [(f"q_{o.name}_cex", f"{o.name}.ob_cex"), (f"q_{o.name}_left", f"{o.name}.ob_left"),
                     (f"q_{o.name}_states", f"{o.name}.ob_states")]
     res = core.coq_eval(bdir, "Tie_query", hdr, "", queries, extra_dirs=[(bdir, "Run")]) if queries else {}
-    for o in obs:
+    for o in robs:
         cov["obligations"] += 1
         cex = res[f"q_{o.name}_cex"]
         left = core.parse_nums(res[f"q_{o.name}_left"])
@@ -160,7 +161,7 @@ def run_check(prop, tier, seed, replay=None):
         cov["assumptions_report"].append(f"{n}: {r}")
         if not r.startswith("Closed"):
             raise HarnessFault(f"tie theorem {n} is not closed: {r}")
-    cov["discharged"] += len(obs)
+    cov["discharged"] += len(robs)
     extra_names = names[len(sum([o.theorem_names for o in obs], [])):]
     cov["obligations"] += len(extra_names); cov["discharged"] += len(extra_names)
     cov["obligation_list"] += [f"tie corollary {n}" for n in extra_names]
@@ -169,6 +170,9 @@ def run_check(prop, tier, seed, replay=None):
     payload = search_impl(prop, targets, obs, impl_traces, bdir, hdr, rng, tier, cov=cov)
     if payload is not None:
         raise Violation(payload)
+    payload = correspond(prop, obs, impl_traces, bdir, hdr, cov)
+    if payload is not None:
+        raise Violation(payload, nofail=True)
     if hasattr(prop, "correspondence"):
         payload = prop.correspondence(tier, rng, bdir, cov)
         if payload is not None:
@@ -197,6 +201,39 @@ def eval_monitor(o, trs_packed, bdir, hdr, tag):
     q = [("codes", f"map (bad_code {o.mon_expr} {o.m0_expr}) ios")]
     res = core.coq_eval(bdir, tag, hdr, defs, q, extra_dirs=[(bdir, "Run")])
     return core.parse_nums(res["codes"]) if res["codes"].strip() != "[]" else []
+
+
+def correspond(prop, obs, impl_traces, bdir, hdr, cov):
+    """Hand model vs simulator of the real module on the same traces (C obligations)."""
+    for o in obs:
+        if o.corr is None:
+            continue
+        t = o.target
+        trs, outs = impl_traces[t.name]
+        tin = [[t.pack_in(c) for c in tr] for tr in trs]
+        tout = [[t.pack_out(x) for x in ou] for ou in outs]
+        mstep, m0, norm = o.corr
+        defs = ("Definition tin : list (list N) := [" + ";\n ".join(core.nlist(x) for x in tin) + "].\n" +
+                "Definition tout : list (list N) := [" + ";\n ".join(core.nlist(x) for x in tout) + "].\n")
+        res = core.coq_eval(bdir, f"Corr_{o.name}", hdr, defs,
+                            [("codes", f"corr_codes ({mstep}) ({norm}) ({m0}) tin tout")], extra_dirs=[(bdir, "Run")])
+        codes = core.parse_nums(res["codes"]) if res["codes"].strip() != "[]" else []
+        cyc = sum(len(x) for x in tin)
+        cov["correspondence"].append(dict(obligation=o.name, target=t.name, traces=len(tin), cycles=cyc,
+                                          describe=o.describe))
+        for k, c in enumerate(codes):
+            if c != 0:
+                res2 = core.coq_eval(bdir, f"CorrD_{o.name}", hdr,
+                                     f"Definition one : list N := {core.nlist(tin[k][:c])}.\n",
+                                     [("mo", f"run ({mstep}) ({m0}) one")], extra_dirs=[(bdir, "Run")])
+                mo = core.parse_nums(res2["mo"])
+                return dict(property=prop.PID, obligation=o.name, target=t.name, describe=o.describe,
+                            reason="correspondence between the hand model and the implementation no longer holds "
+                                   "and no monitor found a failing input",
+                            inputs=trs[k][:c], outputs=outs[k][:c],
+                            model_outputs=[core.nir2coq.unpack(t.layout.outputs, x) for x in mo],
+                            differing_cycle=c - 1)
+    return None
 
 
 def confirm_on_impl(prop, o, path, bdir, hdr):
